@@ -61,13 +61,16 @@ def run(tier):
             sent = rng.choice(b)
             lv = trees.leaves_of(sent[0])
             j = rng.randrange(len(lv))
-            pw = rng.choice(['f(x)', 'a(b', 'g)h'])
+            pw = rng.choice(['f(x)', '(ab', 'gh)', 'x)', '(('])
             for tr in sent:
                 trees.leaves_of(tr)[j]['tok']['word'] = pw
         for sent in b:
             for lf in trees.leaves_of(sent[0]):
                 w = lf['tok']['word']
-                if len(w) > 1 and ('(' in w or ')' in w):
+                # K01: a longer word that BEGINS with '(' (read as a category) or ENDS with ')' (read as a closing bracket) has no
+                # spelling in the format; any other word with round brackets in it (')a', 'a(b', '):') is an ordinary word and must
+                # come back
+                if len(w) > 1 and (w[0] == '(' or w[-1] == ')'):
                     if probe:
                         inner = True
                     else:
